@@ -1,12 +1,16 @@
-(* RunC12.v -- runner for C12: one case = a document; result = page_iter and get_pages. *)
-From LV Require Import Base.Bytes Base.Sx Model.Obj Model.DocQ Model.PageTree.
+(* RunC12.v -- runner for C12: one case = a document; result = page_iter, get_pages and the size_hint of the
+   fresh iterator and after every yielded page. *)
+From LV Require Import Base.Bytes Base.Sx Model.Obj Model.DocQ Model.PageTree Model.PageTreeHint.
 
 Definition run (x : sx) : sx :=
   match (match x with SL (_ :: dx :: _) => doc_of_sx dx | _ => None end) with
   | None => sx_id "badcase"
   | Some d =>
     SL [sx_id "pages"; SL (map oid_to_sx (page_iter d));
-        SL (map (fun p => SL [sx_N (fst p); oid_to_sx (snd p)]) (get_pages d))]
+        SL (map (fun p => SL [sx_N (fst p); oid_to_sx (snd p)]) (get_pages d));
+        (let '(h0, steps) := page_hints d in
+         SL (sx_id "hints" :: SL [sx_N (fst h0); sx_N (snd h0)] ::
+             map (fun s => SL [oid_to_sx (fst s); sx_N (fst (snd s)); sx_N (snd (snd s))]) steps))]
   end.
 
 Definition run_line : bytes -> bytes := run_line_with run.
